@@ -159,6 +159,12 @@ struct FnCfg {
 	/// element in order until it first yields false (std semantics of take_while / cloned / collect: assumption)
 	#[serde(default)]
 	take_while: Option<TakeWhileCfg>,
+	/// L26 (filter form): `X.into_iter().filter(|P| BODY).collect()` with a BODY that updates captured locals (`FnMut`) is emitted as
+	/// `{ let vx_src = X; let mut vx_fl = Vec::new(); let mut vx_fli: usize = 0; while vx_fli < vx_src.len() { let P = &vx_src[vx_fli];
+	///    let vx_keep: bool = BODY; if vx_keep { vx_fl.push(vf_clone(P)); } vx_fli = vx_fli + 1; } vx_fl }` — BODY verbatim, once per element
+	/// in order; the kept elements in order (std semantics of into_iter / filter / collect: assumption)
+	#[serde(default)]
+	filter_loop: Option<TakeWhileCfg>,
 }
 
 #[derive(Deserialize, Clone, Debug, Default)]
@@ -175,6 +181,8 @@ struct TakeWhileCfg {
 	proof_body_start: Option<String>,
 	#[serde(default)]
 	proof_after: Option<String>,
+	#[serde(default)]
+	proof_body_end: Option<String>,
 }
 
 #[derive(Deserialize, Clone, Debug)]
@@ -1135,6 +1143,39 @@ impl<'ast, 'c> Visit<'ast> for FnVisitor<'c> {
 				self.push(ws, we, vec![Part::Text("vf_str_to_string(".into()), Part::Src(rs, re), Part::Text(")".into())], "L13");
 				return;
 			}
+		}
+		if m == "collect" && mc.args.is_empty() && self.cfg.filter_loop.is_some() {
+			if let syn::Expr::MethodCall(fl) = &*mc.receiver {
+				if fl.method == "filter" && fl.args.len() == 1 {
+					if let (syn::Expr::MethodCall(it), syn::Expr::Closure(c)) = (&*fl.receiver, &fl.args[0]) {
+						if it.method == "into_iter" && it.args.is_empty() && c.inputs.len() == 1 {
+							let twc = self.cfg.filter_loop.clone().unwrap();
+							let (xs, xe) = br(it.receiver.span());
+							let (ps, pe) = br(c.inputs[0].span());
+							let (bs, be) = br(c.body.span());
+							let mut parts = vec![
+								Part::Text("{ let vx_src = ".to_string()), Part::Src(xs, xe),
+								Part::Text("; let mut vx_fl = Vec::new(); let mut vx_fli: usize = 0;\nwhile vx_fli < vx_src.len()\n".to_string()),
+							];
+							let mut inv = vec![Clause::Plain("vx_fli <= vx_src.len()".to_string())];
+							inv.extend(twc.invariant.iter().cloned());
+							parts.extend(self.clause_parts("invariant", "invariant", &inv, "        "));
+							parts.push(Part::Text(format!("\n        decreases vx_src.len() - vx_fli,\n    {{\n{}\nlet ", twc.proof_body_start.clone().unwrap_or_default())));
+							parts.push(Part::Src(ps, pe));
+							parts.push(Part::Text(" = &vx_src[vx_fli];\nlet vx_keep: bool = ".to_string()));
+							parts.push(Part::Src(bs, be));
+							parts.push(Part::Text(";\nif vx_keep { vx_fl.push(vf_clone(".to_string()));
+							parts.push(Part::Src(ps, pe));
+							parts.push(Part::Text(format!(")); }}\nvx_fli = vx_fli + 1;\n{}\n}}\n{}\nvx_fl }}", twc.proof_body_end.clone().unwrap_or_default(), twc.proof_after.clone().unwrap_or_default())));
+							self.push(ws, we, parts, "L26");
+							syn::visit::visit_expr(self, &it.receiver);
+							syn::visit::visit_expr(self, &c.body);
+							return;
+						}
+					}
+				}
+			}
+			die(&format!("{}: filter lowering (L26) configured but no `X.into_iter().filter(|P| B).collect()` found in that shape", self.fname));
 		}
 		if m == "collect" && mc.args.is_empty() && self.cfg.take_while.is_some() {
 			// L26 (see FnCfg::take_while)
